@@ -2,6 +2,7 @@
    supports_hz.  About gen/Banks.v (regenerated from filters.py on every run). *)
 From Coq Require Import Reals ZArith Lra Lia.
 From Interval Require Import Tactic.
+From Flocq Require Import Core.Raux.
 From Verif Require Import gen.Scales gen.Banks C05.Model.
 Open Scope R_scope.
 
@@ -24,6 +25,16 @@ Proof. rewrite <- ln_1. apply ln_increasing; lra. Qed.
 
 Lemma pow2_gt_0 x : x <> 0 -> 0 < x ^ 2.
 Proof. intros H. replace (x ^ 2) with (Rsqr x) by (unfold Rsqr; ring). apply Rsqr_pos_lt; exact H. Qed.
+
+Lemma exp_pow_n x n : exp x ^ n = exp (INR n * x).
+Proof.
+  induction n as [|n IH].
+  - simpl. rewrite Rmult_0_l, exp_0. reflexivity.
+  - rewrite S_INR. simpl pow. rewrite IH, <- exp_plus. f_equal. ring.
+Qed.
+
+Lemma pow2_lt x y : 0 <= x -> x < y -> x ^ 2 < y ^ 2.
+Proof. intros H0 H. nra. Qed.
 
 Lemma sqrt_sq x : 0 <= x -> sqrt x ^ 2 = x.
 Proof. intros H. simpl. rewrite Rmult_1_r. apply sqrt_sqrt; exact H. Qed.
@@ -329,3 +340,71 @@ Qed.
 (* hypotheses satisfiable: a 16 kHz filter between 1000 and 1200 Hz *)
 Example gabor_example : 0 < 16000 /\ 1000 < 1200 /\ 1200 - 1000 <= 16000.
 Proof. lra. Qed.
+
+(** * The periodised response written by get_frequency_response *)
+Lemma Ztrunc_unit x : 0 <= x < 1 -> Ztrunc x = 0%Z.
+Proof.
+  intros [H0 H1]. rewrite Ztrunc_floor by exact H0. apply Zfloor_imp. simpl. lra.
+Qed.
+
+(* a filter whose support lies in (-2 PI, 2 PI) is summed over the periods -1, 0, 1 *)
+Lemma gabor_freq_resp_three_images_l l2 std c lowest highest (width k : Z) :
+  - (2 * PI) < lowest -> 0 <= highest < 2 * PI ->
+  gabor_freq_resp l2 std c lowest highest width k
+  = gabor_image l2 std c ((IZR k / IZR width + -1) * 2 * PI)
+    + (gabor_image l2 std c ((IZR k / IZR width + 0) * 2 * PI)
+       + (gabor_image l2 std c ((IZR k / IZR width + 1) * 2 * PI) + 0)).
+Proof.
+  intros Hl Hh. pose proof PI_RGT_0 as Hpi. unfold gabor_freq_resp.
+  assert (S : gabor_fr_period_start lowest = (-1)%Z).
+  { unfold gabor_fr_period_start. cbv zeta. rewrite Ztrunc_unit; [reflexivity|].
+    split.
+    - apply Rmult_le_pos; [apply Rmax_r | left; apply Rinv_0_lt_compat; lra].
+    - apply Rmult_lt_reg_r with (2 * PI); [lra|].
+      replace (Rmax (- lowest) 0 / (2 * PI) * (2 * PI)) with (Rmax (- lowest) 0) by (field; lra).
+      apply Rmax_lub_lt; lra. }
+  assert (E : gabor_fr_period_stop highest = 2%Z).
+  { unfold gabor_fr_period_stop. cbv zeta. rewrite Ztrunc_unit; [reflexivity|].
+    split.
+    - apply Rmult_le_pos; [lra | left; apply Rinv_0_lt_compat; lra].
+    - apply Rmult_lt_reg_r with (2 * PI); [lra|].
+      replace (highest / (2 * PI) * (2 * PI)) with highest by (field; lra). lra. }
+  rewrite S, E. unfold Zsum. change (Z.to_nat (2 - -1)) with 3%nat. cbn [Zsum_from].
+  change (-1 + 1)%Z with 0%Z. change (0 + 1)%Z with 1%Z.
+  rewrite !gabor_fr_val_image, !gabor_fr_omega_shape. reflexivity.
+Qed.
+
+(* in the property's regime (angular support narrower than PI, scale_l2_norm = False) the
+   two neighbouring images of the response at the centre are below threshold^16 *)
+Lemma gabor_neighbour_images_negligible_l erb rate l r : 0 < rate -> l < r ->
+  let std := gabor_self_stds_elt erb rate l r in
+  let c := gabor_self_centers_ang_elt rate l r in
+  2 * gabor_diff_ang false erb rate l r < PI ->
+  gabor_image false std c (c + 2 * PI) <= effective_support_threshold ^ 16
+  /\ gabor_image false std c (c - 2 * PI) <= effective_support_threshold ^ 16.
+Proof.
+  intros Hr Hlr std c Hd. pose proof PI_RGT_0 as Hpi.
+  pose proof (gabor_std_pos_l erb rate l r Hr Hlr) as Hs. fold std in Hs.
+  pose proof f_support_const_pos as Hf.
+  rewrite gabor_diff_ang_shape in Hd. fold std in Hd.
+  (* sqrt(fc) / std < PI / 2, so std^2 PI^2 > 4 fc *)
+  assert (Hq : 4 * gabor_f_support_const false < std ^ 2 * PI ^ 2).
+  { assert (A : 2 * sqrt (gabor_f_support_const false) < std * PI).
+    { apply Rmult_lt_reg_r with (/ std); [apply Rinv_0_lt_compat; exact Hs|].
+      replace (std * PI * / std) with PI by (field; lra).
+      replace (2 * sqrt (gabor_f_support_const false) * / std) with (2 * (sqrt (gabor_f_support_const false) / std)) by (field; lra).
+      exact Hd. }
+    assert (0 <= sqrt (gabor_f_support_const false)) by apply sqrt_pos.
+    replace (4 * gabor_f_support_const false) with ((2 * sqrt (gabor_f_support_const false)) ^ 2)
+      by (rewrite Rpow_mult_distr, sqrt_sq by lra; ring).
+    replace (std ^ 2 * PI ^ 2) with ((std * PI) ^ 2) by ring.
+    apply pow2_lt; lra. }
+  assert (Hv : forall w, (c - w) ^ 2 = 4 * PI ^ 2 ->
+                         gabor_image false std c w <= effective_support_threshold ^ 16).
+  { intros w Hw. rewrite gabor_image_shape, Hw.
+    replace (effective_support_threshold ^ 16) with (exp (16 * ln effective_support_threshold))
+      by (replace 16 with (INR 16) by (simpl; lra); rewrite <- exp_pow_n, exp_ln by (unfold effective_support_threshold; lra); reflexivity).
+    rewrite gabor_f_support_const_shape in Hq.
+    left. apply exp_increasing. nra. }
+  split; apply Hv; ring.
+Qed.
